@@ -26,6 +26,8 @@ EXTRA = {
     "win_rn_xy_rev": ".extend({'r3': '_row_number()'}, partition_by=['g'], order_by=['x', 'y'], reverse=['y'])",
     "win_cs_xy": ".extend({'c1': 'x.cumsum()'}, partition_by=['g'], order_by=['x', 'y'])",
     "win_sum_g": ".extend({'t1': 'y.sum()'}, partition_by=['g'])",
+    "win_sum_all": ".extend({'t0': 'y.sum()'}, partition_by=1)",  # whole-table window next to a partitioned one: must not be fused at composition
+    "win_cs_all_xy": ".extend({'c0': 'y.cumsum()'}, partition_by=1, order_by=['x', 'y'])",
     "win_sum_gy": ".extend({'t2': 'x.sum()'}, partition_by=['g', 'y'])",
 }
 for _k, _v in EXTRA.items():
